@@ -202,6 +202,9 @@ type Holder struct {
 	at      int
 	n       int
 	label   string
+	atLabel string          // alternatively: park at the first point with this label
+	parked  bool
+	Ctx     context.Context // the context the parked call was given
 	reached chan struct{}
 	release chan struct{}
 }
@@ -216,9 +219,9 @@ func (h *Holder) Point(ctx context.Context, label string) {
 	}
 	h.mu.Lock()
 	h.n++
-	hit := h.at != 0 && h.n == h.at
+	hit := (h.at != 0 && h.n == h.at) || (h.atLabel != "" && label == h.atLabel && !h.parked)
 	if hit {
-		h.label = label
+		h.label, h.parked, h.Ctx = label, true, ctx
 	}
 	h.mu.Unlock()
 	if hit {
